@@ -106,6 +106,7 @@ type inSpec struct {
 	Value   int64
 	Witness bool // P2WPKH coin of the fixed key
 	Seq     uint32
+	HasSeq  bool // use Seq even when it is zero
 }
 
 // mkTx builds a transaction spending ins, paying `fee`, splitting the remainder
@@ -118,7 +119,7 @@ func mkTx(version int32, ins []inSpec, fee int64, nOuts int, firstWit bool, extr
 	prev := map[wire.OutPoint]*wire.TxOut{}
 	for _, in := range ins {
 		seq := in.Seq
-		if seq == 0 {
+		if seq == 0 && !in.HasSeq {
 			seq = 0xffffffff
 		}
 		tx.AddTxIn(&wire.TxIn{PreviousOutPoint: in.Op, Sequence: seq})
@@ -235,6 +236,17 @@ func buildWorld(name string) *world {
 		w.Deliver = append(w.Deliver, empties(p, parent, 1, 1000, "E")...) // tip 4, next 5
 	case "halving10":
 		w.Deliver = append(w.Deliver, empties(p, parent, 6, 1000, "E")...) // tip 9, next 10
+	case "advanced":
+		// the pool is filled at tip 5; then block 6 confirms u0 (whether or not it was
+		// in the pool: its children may have been waiting as orphans) and block 7 is
+		// empty: the tip only moved forwards since admission
+		e := empties(p, parent, 2, 1000, "E")
+		w.Deliver = append(w.Deliver, e...)
+		w.Tip = e[1]
+		u := baseUniverse(w)
+		e6 := lab.Build(p, e[1], lab.BOpt{Name: "E6", Tag: 1006, Txs: []*wire.MsgTx{u[0].Tx}, Fees: 20000})
+		e7 := lab.Build(p, e6, lab.BOpt{Name: "E7", Tag: 1007})
+		w.Deliver = append(w.Deliver, e6, e7)
 	case "mtp-ahead":
 		// six blocks stamped about an hour ahead of the node's adjusted time: the
 		// median time past of the tip is later than "now", so the template's time
@@ -276,6 +288,9 @@ func buildWorld(name string) *world {
 	if name == "reorg-pre" {
 		w.SubmitAfter = 6 // at tip A6, before the competing branch arrives
 	}
+	if name == "advanced" {
+		w.SubmitAfter = 5
+	}
 	ref, err := lab.Fold(w.Main)
 	if err != nil {
 		panic("world " + name + " does not fold: " + err.Error())
@@ -297,9 +312,12 @@ func buildWorld(name string) *world {
 //	u7           version 2, lock time = tip height (final exactly for the next block), non-final sequence
 func baseUniverse(w *world) []utx {
 	f1, f2 := w.F[1], w.F[2]
-	tipH := w.Tip.Height
+	tipH := w.Tip.Height // tip at submission time
 	if w.Name == "reorg-pre" {
 		tipH = 6
+	}
+	if w.Name == "advanced" {
+		tipH = 5
 	}
 	u0 := mkTx(1, []inSpec{{Op: coin(f1, 3), Value: 2.5e8}}, 20000, 3, false, []*wire.TxOut{padOut(900)}, 0)
 	u1 := mkTx(1, []inSpec{{Op: outPt(u0, 0), Value: u0.TxOut[0].Value}}, 100000, 2, false, []*wire.TxOut{padOut(940)}, 0)
@@ -369,7 +387,34 @@ func poolBig(w *world, base, last int) []utx {
 			n = last
 		}
 		tx := mkTx(1, []inSpec{{Op: c, Value: 2.5e8}}, int64(200000+1000*i), 2, false, []*wire.TxOut{padOut(n)}, 0)
-		out = append(out, utx{fmt.Sprintf("b%d", i), tx})
+		out = append(out, utx{fmt.Sprintf("b%d/%d", i, n), tx})
+	}
+	return out
+}
+
+// poolLocks: transactions whose locks are satisfied exactly for the next block.
+//
+//	l0           version 2, BIP68 relative height lock = next - 2 on a coin of height 2
+//	             (min height next-1: spendable in the next block, not one earlier)
+//	l1 <- l0.0   version 2, sequence 0 (BIP68 enabled, zero blocks): may share a block with its parent
+//	l2           version 2, lock time = tip height AND the same exact relative lock
+func poolLocks(w *world) []utx {
+	f2 := w.F[2]
+	rel := uint32(w.Next - 2)
+	l0 := mkTx(2, []inSpec{{Op: coin(f2, 5), Value: 2.5e8, Seq: rel, HasSeq: true}}, 12000, 2, false, []*wire.TxOut{padOut(200)}, 0)
+	l1 := mkTx(2, []inSpec{{Op: outPt(l0, 0), Value: l0.TxOut[0].Value, Seq: 0, HasSeq: true}}, 14000, 2, false, []*wire.TxOut{padOut(210)}, 0)
+	l2 := mkTx(2, []inSpec{{Op: coin(f2, 6), Value: 2.5e8, Seq: rel, HasSeq: true}}, 16000, 2, false, []*wire.TxOut{padOut(220)}, uint32(w.Tip.Height))
+	return []utx{{"l0", l0}, {"l1", l1}, {"l2", l2}}
+}
+
+// poolStar: one parent with n outputs and n children spending one output each
+// (wide fan-out; with n >= 252 the block's transaction count needs a 3-byte varint).
+func poolStar(w *world, n int) []utx {
+	root := mkTx(1, []inSpec{{Op: coin(w.F[3], 7), Value: 2.5e8}}, 50000, n, false, nil, 0)
+	out := []utx{{"p", root}}
+	for i := 0; i < n; i++ {
+		c := mkTx(1, []inSpec{{Op: outPt(root, uint32(i)), Value: root.TxOut[i].Value}}, int64(100+7*i), 2, false, nil, 0)
+		out = append(out, utx{fmt.Sprintf("k%03d", i), c})
 	}
 	return out
 }
